@@ -102,6 +102,13 @@ pub fn observe_line(line: &str) -> Option<String> {
             let col = toks.get(2)?.parse::<usize>().ok()?;
             Some(summarise(&pad_toks(run, col)))
         }
+        Some(&"amat") => {
+            // (translator only, tools/genx_crosstalk.py) the cross-talk matrix of a block of n wires, row by row, as bits
+            let n = toks.get(1)?.parse::<usize>().ok()?;
+            let m = alpha_g_physics::verif::crosstalk_matrix(n);
+            let t: Vec<String> = m.iter().map(|x| format!("{:016x}", x.to_bits())).collect();
+            Some(format!("{} {}", n, t.join(" ")))
+        }
         Some(&"calib-scan") => {
             let upto = toks.get(1)?.parse::<u32>().ok()?;
             let b: Vec<String> = calib_boundaries(upto).iter().map(|r| r.to_string()).collect();
